@@ -594,6 +594,37 @@ fn c20_belief_status_independent_of_recording_order() {
     std::mem::forget((policy, l1, l2));
 }
 
+// ---- the threshold domain the classify harnesses assume (source slice of projection/policy.rs) ------------
+// Policy::from_settings reads a serde_json Map (out of reach); the two guards that put every policy it
+// returns on 0 <= material <= accept <= 1 are sliced from the current source on every run.
+include!("/verif/slices/policy_domain.rs");
+
+// @check id=C20 tier=quick cap=300 needs=slice_policy role=policy_threshold_domain
+// @fns projection::policy::threshold (range test, sliced), projection::policy::Policy::from_settings (ordering test, sliced), projection::policy::Policy::baseline
+// @bound accept and material each either left at the baseline policy's value or overridden by any f64 bit pattern (symbolic), kept only if the sliced range test lets it through; the pair kept only if the sliced ordering test lets it through
+// @assume from_settings stores exactly the value the range test accepted (the slicer checks that `Ok(Some(value))` follows the test) and applies the ordering test after both overrides (read off the source)
+#[kani::proof]
+fn c20_every_accepted_policy_lies_on_the_threshold_domain() {
+    let base = Policy::baseline();
+    let (override_accept, override_material): (bool, bool) = (kani::any(), kani::any());
+    let (a, m): (f64, f64) = (kani::any(), kani::any());
+    if override_accept {
+        kani::assume(!slice_threshold_rejects(a));
+    }
+    if override_material {
+        kani::assume(!slice_threshold_rejects(m));
+    }
+    let accept = if override_accept { a } else { base.accept };
+    let material = if override_material { m } else { base.material };
+    kani::assume(!slice_policy_rejects(material, accept));
+    assert!(0.0 <= material && material <= accept && accept <= 1.0, "every policy from_settings returns has 0 <= material <= accept <= 1 - the domain on which the classification laws are decided");
+    assert!(!accept.is_nan() && !material.is_nan(), "and neither boundary is NaN");
+    kani::cover!(override_accept && override_material && material == accept, "material may equal accept");
+    kani::cover!(override_material && !override_accept && material == 0.0, "material = 0 admitted");
+    kani::cover!(!override_accept && !override_material, "plain baseline");
+    std::mem::forget(base);
+}
+
 // @check id=C20 tier=thorough cap=600 expect=fail role=witness
 // @fns projection::aggregate
 // @bound vacuity twin: must come back FAILED
